@@ -57,8 +57,9 @@ type tableSection struct {
 // Loader is the low level font reader, providing
 // full control over table loading.
 type Loader struct {
-	file   Resource             // source, needed to parse each table
-	tables map[Tag]tableSection // header only, contents is processed on demand
+	file     Resource             // source, needed to parse each table
+	fileSize int64                // used to bound the length of the tables
+	tables   map[Tag]tableSection // header only, contents is processed on demand
 
 	// Type represents the kind of this font being loaded.
 	// It is one of TrueType, TrueTypeApple, PostScript1, OpenType
@@ -126,7 +127,16 @@ func NewLoaders(file Resource) ([]*Loader, error) {
 
 // dst is an optional storage which may be provided to reduce allocations.
 func (pr *Loader) findTableBuffer(s tableSection, dst []byte) ([]byte, error) {
+	// do not trust the lengths of the directory before allocating
+	if int64(s.offset)+int64(s.length) > pr.fileSize {
+		return nil, fmt.Errorf("invalid table length %d at offset %d (file size %d)", s.length, s.offset, pr.fileSize)
+	}
 	if s.length != 0 && s.length < s.zLength {
+		// deflate cannot expand its input by a factor greater than 1032
+		const maxDeflateRatio = 1032
+		if uint64(s.zLength) > maxDeflateRatio*uint64(s.length)+maxDeflateRatio {
+			return nil, fmt.Errorf("invalid uncompressed table length %d (for %d compressed bytes)", s.zLength, s.length)
+		}
 		zbuf := io.NewSectionReader(pr.file, int64(s.offset), int64(s.length))
 		r, err := zlib.NewReader(zbuf)
 		if err != nil {
@@ -214,6 +224,11 @@ func parseOneFont(file Resource, offset uint32, relativeOffset bool) (parser *Lo
 		return nil, fmt.Errorf("unknown font format tag %v", bytes)
 	}
 
+	if err != nil {
+		return nil, err
+	}
+
+	parser.fileSize, err = file.Seek(0, io.SeekEnd)
 	if err != nil {
 		return nil, err
 	}
